@@ -1,26 +1,83 @@
 /-
-  Helper definitions and lemmas for C18 (operator expressions): which trees the precedence-climbing parser builds,
-  and that it reads every such tree back from its printed tokens.
+  Helper definitions and lemmas for C18 (operator expressions, the NOT forms, BETWEEN, IN lists, function calls, cursor
+  status): which trees the precedence-climbing parser builds, and that it reads every such tree back from its printed tokens.
 -/
 import Csvq.Model.OpExpr
 namespace Csvq.OpExpr
 variable {α : Type} [DecidableEq α] (tbl : Table α)
 set_option linter.unusedSectionVars false
 
+/-! ## the one-token helpers -/
+
+theorem expectLpar_some {ts r : List (Tok α)} (h : expectLpar ts = some r) : ts = .lpar :: r := by
+  cases ts with
+  | nil => simp [expectLpar] at h
+  | cons a tl => cases a <;> simp [expectLpar] at h; subst h; rfl
+
+theorem expectRpar_some {ts r : List (Tok α)} (h : expectRpar ts = some r) : ts = .rpar :: r := by
+  cases ts with
+  | nil => simp [expectRpar] at h
+  | cons a tl => cases a <;> simp [expectRpar] at h; subst h; rfl
+
+theorem takeComma_some {ts r : List (Tok α)} (h : takeComma ts = some r) : ts = .kw .comma :: r := by
+  cases ts with
+  | nil => simp [takeComma] at h
+  | cons a tl =>
+    cases a with
+    | kw k => cases k <;> simp [takeComma] at h; subst h; rfl
+    | _ => simp [takeComma] at h
+
+theorem nextSym_some {ts r : List (Tok α)} {t : α} {v : Nat} (h : nextSym ts = some (t, v, r)) : ts = .sym t v :: r := by
+  cases ts with
+  | nil => simp [nextSym] at h
+  | cons a tl => cases a <;> simp [nextSym] at h; obtain ⟨rfl, rfl, rfl⟩ := h; rfl
+
+theorem expectSym_some {t : α} {ts r : List (Tok α)} (h : expectSym t ts = some r) : ∃ v, ts = .sym t v :: r := by
+  cases ts with
+  | nil => simp [expectSym] at h
+  | cons a tl =>
+    cases a with
+    | sym t2 v => simp [expectSym] at h; obtain ⟨rfl, rfl⟩ := h; exact ⟨v, rfl⟩
+    | _ => simp [expectSym] at h
+
+/-! ## the shape of the trees the parser builds -/
+
+/-- the token a loop decides on before it applies `[NOT] t …` -/
+def trigTok (neg : Bool) (t : α) : α := if neg then tbl.neg else t
+
+/-- the level with which a token met by a loop is compared with the pending rule (none: the loop returns) -/
+def trigger (t : α) : Option (Nat × Assoc) :=
+  match tbl.bin t with
+  | some la => some la
+  | none =>
+    match tbl.post t with
+    | some la => some la
+    | none => if t = tbl.neg ∨ t = tbl.btw ∨ t = tbl.inn then tbl.lvl t else none
+
 /-- the levels of the rules still pending along the right edge of a tree (outermost first) -/
 def rctx : Expr α → List Nat
   | .bin _ t _ r => (match tbl.bin t with | some (l, _) => [l] | none => []) ++ rctx r
   | .pre t _ e => (match tbl.pre t with | some p => [p] | none => []) ++ rctx e
+  | .nbin _ t _ r => (match tbl.bin t with | some (l, _) => [l] | none => []) ++ rctx r
+  | .between _ _ _ hi => (match tbl.bin tbl.and_ with | some (l, _) => [l] | none => []) ++ rctx hi
   | _ => []
 
-/-- the operators applied along the left edge of a tree (outermost first): what a loop shifted to build it -/
-def lops : Expr α → List (Nat × Assoc)
-  | .bin l t _ _ => (match tbl.bin t with | some la => [la] | none => []) ++ lops l
-  | .post e t _ _ => (match tbl.post t with | some la => [la] | none => []) ++ lops e
+/-- the operators applied along the left edge of a tree (outermost first), each with the token the loop decided on and
+    its level: what a loop shifted to build it -/
+def lops : Expr α → List (α × Nat × Assoc)
+  | .bin l t _ _ => (match trigger tbl t with | some la => [(t, la)] | none => []) ++ lops l
+  | .post e t _ _ => (match trigger tbl t with | some la => [(t, la)] | none => []) ++ lops e
+  | .nbin l _ _ _ => (match trigger tbl tbl.neg with | some la => [(tbl.neg, la)] | none => []) ++ lops l
+  | .between e neg _ _ =>
+    (match trigger tbl (trigTok tbl neg tbl.btw) with | some la => [(trigTok tbl neg tbl.btw, la)] | none => []) ++ lops e
+  | .inl e neg _ =>
+    (match trigger tbl (trigTok tbl neg tbl.inn) with | some la => [(trigTok tbl neg tbl.inn, la)] | none => []) ++ lops e
   | _ => []
 
-/-- `e` can be the result of a loop whose pending rule has level `r`: every operator it applied was shifted -/
-def Fits (r : Nat) (e : Expr α) : Prop := ∀ la ∈ lops tbl e, act la.1 la.2 r = .shift
+/-- `e` can be the result of a loop whose pending rule has level `r` (and which, if `ba`, ends at AND): every operator it
+    applied was shifted -/
+def Fits (r : Nat) (ba : Bool) (e : Expr α) : Prop :=
+  ∀ x ∈ lops tbl e, act x.2.1 x.2.2 r = .shift ∧ (ba = true → x.1 ≠ tbl.and_)
 
 /-- an operator of level `l` (declared `a`) is not taken by any of the pending rules `cs` -/
 def Reduces (l : Nat) (a : Assoc) (cs : List Nat) : Prop := ∀ c ∈ cs, act l a c = .reduce
@@ -28,62 +85,172 @@ def Reduces (l : Nat) (a : Assoc) (cs : List Nat) : Prop := ∀ c ∈ cs, act l 
 /-- the next token does not continue an expression whose pending rules are `cs` -/
 def Stop (cs : List Nat) : List (Tok α) → Prop
   | .sym t _ :: _ =>
-    match tbl.bin t with
+    match trigger tbl t with
     | some (l, a) => Reduces l a cs
-    | none =>
-      match tbl.post t with
-      | some (l, a) => Reduces l a cs
-      | none => True
+    | none => True
   | _ => True
 
+/-- the next token is not `(` (which after an identifier would make a function call) -/
+def NoLpar : List (Tok α) → Prop
+  | .lpar :: _ => False
+  | _ => True
+
+/-- the next token is the AND that ends the lower bound of a BETWEEN -/
+def AtAnd : List (Tok α) → Prop
+  | .sym t _ :: _ => t = tbl.and_
+  | _ => False
+
+/-- the loop reaches the tail dispatcher with this token: it is neither a binary nor a postfix operator -/
+def Plain (t : α) : Prop := tbl.bin t = none ∧ tbl.post t = none
+
+mutual
 /-- the trees the parser builds: an operand whose root (or right edge) binds weaker than — or equal to, on the
     side that does not associate — the operator applied to it must be a `paren` node -/
 def WF : Expr α → Prop
   | .atom _ => True
-  | .paren e => WF e ∧ Fits tbl 0 e
-  | .pre t _ e => ∃ p, tbl.pre t = some p ∧ WF e ∧ Fits tbl p e
-  | .bin L t _ R => ∃ l a, tbl.bin t = some (l, a) ∧ WF L ∧ WF R ∧ Reduces l a (rctx tbl L) ∧ Fits tbl l R
-  | .post e t _ _ => tbl.bin t = none ∧ ∃ l a, tbl.post t = some (l, a) ∧ WF e ∧ Reduces l a (rctx tbl e)
+  | .paren e => WF e ∧ Fits tbl 0 false e
+  | .pre t _ e => ∃ p, tbl.pre t = some p ∧ WF e ∧ Fits tbl p false e
+  | .bin L t _ R => ∃ l a, tbl.bin t = some (l, a) ∧ WF L ∧ WF R ∧ Reduces l a (rctx tbl L) ∧ Fits tbl l false R
+  | .post e t _ w => tbl.bin t = none ∧ w < 4 ∧ ∃ l a, tbl.post t = some (l, a) ∧ WF e ∧ Reduces l a (rctx tbl e)
+  | .nbin L t _ R => Plain tbl tbl.neg ∧ t ≠ tbl.btw ∧ t ≠ tbl.inn ∧ tbl.negable t = true ∧
+      (∃ ln an, tbl.lvl tbl.neg = some (ln, an) ∧ Reduces ln an (rctx tbl L)) ∧
+      ∃ l a, tbl.bin t = some (l, a) ∧ WF L ∧ WF R ∧ Fits tbl l false R
+  | .between e neg lo hi => Plain tbl (trigTok tbl neg tbl.btw) ∧ (neg = false → tbl.btw ≠ tbl.neg) ∧
+      (∃ lt at_, tbl.lvl (trigTok tbl neg tbl.btw) = some (lt, at_) ∧ Reduces lt at_ (rctx tbl e)) ∧
+      ∃ la aa, tbl.bin tbl.and_ = some (la, aa) ∧ WF e ∧ WF lo ∧ WF hi ∧ Fits tbl 0 true lo ∧
+        Reduces la aa (rctx tbl lo) ∧ Fits tbl la false hi
+  | .inl e neg vs => Plain tbl (trigTok tbl neg tbl.inn) ∧ (neg = false → tbl.inn ≠ tbl.neg) ∧ tbl.inn ≠ tbl.btw ∧
+      (∃ lt at_, tbl.lvl (trigTok tbl neg tbl.inn) = some (lt, at_) ∧ Reduces lt at_ (rctx tbl e)) ∧
+      WF e ∧ vs ≠ .nil ∧ WFArgs vs
+  | .call f as => isId f = true ∧ WFArgs as
+  | .cstat c _ _ => isId c = true
+  | .cattr c => isId c = true
+def WFArgs : Args α → Prop
+  | .nil => True
+  | .cons e r => WF e ∧ Fits tbl 0 false e ∧ WFArgs r
+end
 
 /-- a tree the parser can build at the top level (no rule pending) -/
-def WellFormed (e : Expr α) : Prop := WF tbl e ∧ Fits tbl 0 e
+def WellFormed (e : Expr α) : Prop := WF tbl e ∧ Fits tbl 0 false e
 
+mutual
 def cost : Expr α → Nat
   | .atom _ => 1
   | .paren e => cost e + 3
   | .pre _ _ e => cost e + 3
   | .bin l _ _ r => cost l + cost r + 2
   | .post e _ _ _ => cost e + 1
+  | .nbin l _ _ r => cost l + cost r + 3
+  | .between e _ lo hi => cost e + cost lo + cost hi + 3
+  | .inl e _ vs => cost e + costArgs vs + 3
+  | .call _ as => costArgs as + 3
+  | .cstat _ _ _ => 1
+  | .cattr _ => 1
+def costArgs : Args α → Nat
+  | .nil => 0
+  | .cons e r => cost e + costArgs r + 2
+end
 
-theorem cost_le (e : Expr α) : cost e ≤ 3 * (print tbl e).length := by
-  induction e with
-  | atom n => simp [cost, print]
-  | paren e ih => simp [cost, print]; omega
-  | pre t v e ih => simp [cost, print]; omega
-  | bin l t v r ihl ihr => simp [cost, print]; omega
-  | post e t neg w ih => simp [cost, print]; split <;> simp <;> omega
+mutual
+theorem cost_le : ∀ e : Expr α, cost e ≤ 4 * (print tbl e).length
+  | .atom n => by simp [cost, print]
+  | .paren e => by have := cost_le e; simp [cost, print]; omega
+  | .pre t v e => by have := cost_le e; simp [cost, print]; omega
+  | .bin l t v r => by have := cost_le l; have := cost_le r; simp [cost, print]; omega
+  | .post e t neg w => by have := cost_le e; cases neg <;> simp [cost, print] <;> omega
+  | .nbin l t v r => by have := cost_le l; have := cost_le r; simp [cost, print]; omega
+  | .between e neg lo hi => by
+    have := cost_le e; have := cost_le lo; have := cost_le hi
+    cases neg <;> simp [cost, print, negToks] <;> omega
+  | .inl e neg vs => by
+    have := cost_le e; have := costArgs_le vs
+    cases neg <;> simp [cost, print, negToks] <;> omega
+  | .call f as => by have := costArgs_le as; simp [cost, print]; omega
+  | .cstat c neg range => by cases neg <;> cases range <;> simp [cost, print, negToks]
+  | .cattr c => by simp [cost, print]
+theorem costArgs_le : ∀ as : Args α, costArgs as ≤ 4 * (printArgs tbl as).length + 2
+  | .nil => by simp [costArgs, printArgs]
+  | .cons e .nil => by have := cost_le e; simp [costArgs, printArgs]; omega
+  | .cons e (.cons e2 r) => by
+    have := cost_le e; have := costArgs_le (.cons e2 r)
+    simp only [costArgs, printArgs, List.length_append, List.length_cons] at *; omega
+end
+
+/-- the first token of a printed expression: never `)`, `,` or a clause keyword -/
+def HeadOK : Tok α → Prop
+  | .rpar => False
+  | .kw _ => False
+  | _ => True
+
+theorem print_head : ∀ e : Expr α, ∃ a tl, print tbl e = a :: tl ∧ HeadOK a
+  | .atom n => ⟨_, _, rfl, trivial⟩
+  | .paren e => ⟨_, _, rfl, trivial⟩
+  | .pre t v e => ⟨_, _, rfl, trivial⟩
+  | .bin l t v r => by obtain ⟨a, tl, h, ok⟩ := print_head l; exact ⟨a, _, by rw [print, h, List.cons_append], ok⟩
+  | .post e t neg w => by obtain ⟨a, tl, h, ok⟩ := print_head e; exact ⟨a, _, by rw [print, h, List.cons_append], ok⟩
+  | .nbin l t v r => by obtain ⟨a, tl, h, ok⟩ := print_head l; exact ⟨a, _, by rw [print, h, List.cons_append], ok⟩
+  | .between e neg lo hi => by obtain ⟨a, tl, h, ok⟩ := print_head e; exact ⟨a, _, by rw [print, h, List.cons_append], ok⟩
+  | .inl e neg vs => by obtain ⟨a, tl, h, ok⟩ := print_head e; exact ⟨a, _, by rw [print, h, List.cons_append], ok⟩
+  | .call f as => ⟨_, _, rfl, trivial⟩
+  | .cstat c neg range => ⟨_, _, rfl, trivial⟩
+  | .cattr c => ⟨_, _, rfl, trivial⟩
+
+theorem printArgs_head (as : Args α) (h : as ≠ .nil) : ∃ a tl, printArgs tbl as = a :: tl ∧ HeadOK a := by
+  cases as with
+  | nil => exact absurd rfl h
+  | cons e r =>
+    obtain ⟨a, tl, he, ok⟩ := print_head tbl e
+    cases r with
+    | nil => exact ⟨a, tl, by simp [printArgs, he], ok⟩
+    | cons e2 r2 => exact ⟨a, _, by rw [printArgs, he, List.cons_append], ok⟩
 
 theorem stop_nil (ts : List (Tok α)) : Stop tbl [] ts := by
   unfold Stop
   split
   · split
     · intro c hc; simp at hc
-    · split
-      · intro c hc; simp at hc
-      · trivial
+    · trivial
   · trivial
+
+theorem stop_split {c : Nat} {cs : List Nat} {ts : List (Tok α)} (h : Stop tbl (c :: cs) ts) :
+    Stop tbl [c] ts ∧ Stop tbl cs ts := by
+  unfold Stop at h ⊢
+  split
+  · rename_i t v tl
+    simp only at h
+    cases ht : trigger tbl t with
+    | none => simp
+    | some la =>
+      obtain ⟨l, a⟩ := la
+      simp only [ht] at h ⊢
+      exact ⟨fun x hx => h x (by simp at hx; simp [hx]), fun x hx => h x (by simp [hx])⟩
+  · exact ⟨trivial, trivial⟩
+
+theorem stop_sym {cs : List Nat} {t : α} {v : Nat} {tl : List (Tok α)} {l : Nat} {a : Assoc}
+    (ht : trigger tbl t = some (l, a)) (h : Reduces l a cs) : Stop tbl cs (.sym t v :: tl) := by
+  simp only [Stop, ht]; exact h
+
+theorem expectLpar_noLpar {ts : List (Tok α)} (h : NoLpar ts) : expectLpar ts = none := by
+  cases ts with
+  | nil => rfl
+  | cons a tl => cases a <;> simp_all [NoLpar, expectLpar]
+
+theorem expectRpar_head {a : Tok α} {tl : List (Tok α)} (h : HeadOK a) : expectRpar (a :: tl) = none := by
+  cases a <;> simp_all [HeadOK, expectRpar]
 
 /-! ## more fuel never changes a result -/
 
 theorem mono_step : ∀ n : Nat,
-    (∀ r ts x, parseE tbl n r ts = some x → parseE tbl (n + 1) r ts = some x) ∧
+    (∀ r ba ts x, parseE tbl n r ba ts = some x → parseE tbl (n + 1) r ba ts = some x) ∧
     (∀ ts x, parseUnit tbl n ts = some x → parseUnit tbl (n + 1) ts = some x) ∧
-    (∀ r lhs ts x, parseLoop tbl n r lhs ts = some x → parseLoop tbl (n + 1) r lhs ts = some x)
-  | 0 => by simp [parseE, parseUnit, parseLoop]
+    (∀ ts x, parseArgs tbl n ts = some x → parseArgs tbl (n + 1) ts = some x) ∧
+    (∀ lhs neg t v ts x, parseTail tbl n lhs neg t v ts = some x → parseTail tbl (n + 1) lhs neg t v ts = some x) ∧
+    (∀ r ba lhs ts x, parseLoop tbl n r ba lhs ts = some x → parseLoop tbl (n + 1) r ba lhs ts = some x)
+  | 0 => by simp [parseE, parseUnit, parseLoop, parseArgs, parseTail]
   | n + 1 => by
-    obtain ⟨ihE, ihU, ihL⟩ := mono_step n
-    refine ⟨?_, ?_, ?_⟩
-    · intro r ts x h
+    obtain ⟨ihE, ihU, ihA, ihT, ihL⟩ := mono_step n
+    refine ⟨?_, ?_, ?_, ?_, ?_⟩
+    · intro r ba ts x h
       rw [parseE] at h
       rw [parseE]
       cases hu : parseUnit tbl n ts with
@@ -92,31 +259,106 @@ theorem mono_step : ∀ n : Nat,
         obtain ⟨u, ts1⟩ := p
         simp only [hu] at h
         simp only [ihU _ _ hu]
-        exact ihL _ _ _ _ h
+        exact ihL _ _ _ _ _ h
     · intro ts x h
       cases ts with
       | nil => simp [parseUnit] at h
       | cons t ts' =>
         cases t with
-        | atom k => simpa [parseUnit] using h
+        | atom k =>
+          simp only [parseUnit] at h ⊢
+          cases hl : expectLpar ts' with
+          | none => simpa [hl] using h
+          | some ts1 =>
+            simp only [hl] at h ⊢
+            by_cases hk : isId k = true
+            · simp only [hk, if_true] at h ⊢
+              cases hr : expectRpar ts1 with
+              | some ts2 => simpa [hr] using h
+              | none =>
+                simp only [hr] at h ⊢
+                cases ha : parseArgs tbl n ts1 with
+                | none => simp [ha] at h
+                | some q => simp only [ha] at h; simp only [ihA _ _ ha]; exact h
+            · simp [hk] at h
         | rpar => simp [parseUnit] at h
-        | lit w => simp [parseUnit] at h
+        | lit w => simpa [parseUnit] using h
         | kw k => simp [parseUnit] at h
         | lpar =>
           simp only [parseUnit] at h ⊢
-          cases he : parseE tbl n 0 ts' with
+          cases he : parseE tbl n 0 false ts' with
           | none => simp [he] at h
-          | some p => simp only [he] at h; simp only [ihE _ _ _ he]; exact h
+          | some p => simp only [he] at h; simp only [ihE _ _ _ _ he]; exact h
         | sym t v =>
           simp only [parseUnit] at h ⊢
           cases hp : tbl.pre t with
           | none => simp [hp] at h
           | some p =>
             simp only [hp] at h ⊢
-            cases he : parseE tbl n p ts' with
+            cases he : parseE tbl n p false ts' with
             | none => simp [he] at h
-            | some q => simp only [he] at h; simp only [ihE _ _ _ he]; exact h
-    · intro r lhs ts x h
+            | some q => simp only [he] at h; simp only [ihE _ _ _ _ he]; exact h
+    · intro ts x h
+      rw [parseArgs] at h
+      rw [parseArgs]
+      cases he : parseE tbl n 0 false ts with
+      | none => simp [he] at h
+      | some q =>
+        obtain ⟨e, ts1⟩ := q
+        simp only [he] at h
+        simp only [ihE _ _ _ _ he]
+        cases hc : takeComma ts1 with
+        | none => simpa [hc] using h
+        | some ts2 =>
+          simp only [hc] at h ⊢
+          cases ha : parseArgs tbl n ts2 with
+          | none => simp [ha] at h
+          | some q2 => simp only [ha] at h; simp only [ihA _ _ ha]; exact h
+    · intro lhs neg t v ts x h
+      simp only [parseTail] at h ⊢
+      by_cases h1 : t = tbl.btw
+      · simp only [h1, if_true] at h ⊢
+        cases hb : tbl.bin tbl.and_ with
+        | none => simp [hb] at h
+        | some la =>
+          obtain ⟨la, aa⟩ := la
+          simp only [hb] at h ⊢
+          cases he : parseE tbl n 0 true ts with
+          | none => simp [he] at h
+          | some q =>
+            obtain ⟨lo, ts1⟩ := q
+            simp only [he] at h
+            simp only [ihE _ _ _ _ he]
+            cases hs : expectSym tbl.and_ ts1 with
+            | none => simp [hs] at h
+            | some ts2 =>
+              simp only [hs] at h ⊢
+              cases he2 : parseE tbl n la false ts2 with
+              | none => simp [he2] at h
+              | some q2 => simp only [he2] at h; simp only [ihE _ _ _ _ he2]; exact h
+      · simp only [h1, if_false] at h ⊢
+        by_cases h2 : t = tbl.inn
+        · simp only [h2, if_true] at h ⊢
+          cases hl : expectLpar ts with
+          | none => simp [hl] at h
+          | some ts1 =>
+            simp only [hl] at h ⊢
+            cases ha : parseArgs tbl n ts1 with
+            | none => simp [ha] at h
+            | some q => simp only [ha] at h; simp only [ihA _ _ ha]; exact h
+        · simp only [h2, if_false] at h ⊢
+          by_cases h3 : (neg && tbl.negable t) = true
+          · simp only [h3, if_true] at h ⊢
+            cases hb : tbl.bin t with
+            | none => simp [hb] at h
+            | some la =>
+              obtain ⟨l, a⟩ := la
+              simp only [hb] at h ⊢
+              cases he : parseE tbl n l false ts with
+              | none => simp [he] at h
+              | some q => simp only [he] at h; simp only [ihE _ _ _ _ he]; exact h
+          · simp [h3] at h
+    · intro r ba lhs ts x h
       cases ts with
       | nil => simpa [parseLoop] using h
       | cons t ts' =>
@@ -128,54 +370,115 @@ theorem mono_step : ∀ n : Nat,
         | kw k => simpa [parseLoop] using h
         | sym t v =>
           simp only [parseLoop] at h ⊢
-          cases hb : tbl.bin t with
-          | some la =>
-            obtain ⟨l, a⟩ := la
-            simp only [hb] at h ⊢
-            cases ha : act l a r with
-            | shift =>
-              simp only [ha] at h ⊢
-              cases he : parseE tbl n l ts' with
-              | none => simp [he] at h
-              | some q => simp only [he] at h; simp only [ihE _ _ _ he]; exact ihL _ _ _ _ h
-            | reduce => simpa [ha] using h
-            | error => simp [ha] at h
-          | none =>
-            simp only [hb] at h ⊢
-            cases hp : tbl.post t with
-            | none => simpa [hp] using h
+          by_cases h0 : (ba && decide (t = tbl.and_)) = true
+          · simpa [h0] using h
+          · simp only [h0] at h ⊢
+            cases hb : tbl.bin t with
             | some la =>
               obtain ⟨l, a⟩ := la
-              simp only [hp] at h ⊢
+              simp only [hb] at h ⊢
               cases ha : act l a r with
               | shift =>
                 simp only [ha] at h ⊢
-                cases hpt : postTail tbl ts' with
-                | none => simp [hpt] at h
-                | some q => simp only [hpt] at h ⊢; exact ihL _ _ _ _ h
+                cases he : parseE tbl n l false ts' with
+                | none => simp [he] at h
+                | some q => simp only [he] at h; simp only [ihE _ _ _ _ he]; exact ihL _ _ _ _ _ h
               | reduce => simpa [ha] using h
               | error => simp [ha] at h
+            | none =>
+              simp only [hb] at h ⊢
+              cases hp : tbl.post t with
+              | some la =>
+                obtain ⟨l, a⟩ := la
+                simp only [hp] at h ⊢
+                cases ha : act l a r with
+                | shift =>
+                  simp only [ha] at h ⊢
+                  cases hpt : postTail tbl ts' with
+                  | none => simp [hpt] at h
+                  | some q => simp only [hpt] at h ⊢; exact ihL _ _ _ _ _ h
+                | reduce => simpa [ha] using h
+                | error => simp [ha] at h
+              | none =>
+                simp only [hp] at h ⊢
+                by_cases hn : t = tbl.neg
+                · simp only [hn, if_true] at h ⊢
+                  cases hl : tbl.lvl tbl.neg with
+                  | none => simpa [hl] using h
+                  | some la =>
+                    obtain ⟨l, a⟩ := la
+                    simp only [hl] at h ⊢
+                    cases ha : act l a r with
+                    | shift =>
+                      simp only [ha] at h ⊢
+                      cases hs : nextSym ts' with
+                      | none => simp [hs] at h
+                      | some q =>
+                        obtain ⟨t2, v2, ts2⟩ := q
+                        simp only [hs] at h ⊢
+                        cases ht : parseTail tbl n lhs true t2 v2 ts2 with
+                        | none => simp [ht] at h
+                        | some q2 => simp only [ht] at h; simp only [ihT _ _ _ _ _ _ ht]; exact ihL _ _ _ _ _ h
+                    | reduce => simpa [ha] using h
+                    | error => simp [ha] at h
+                · simp only [hn, if_false] at h ⊢
+                  by_cases hbi : t = tbl.btw ∨ t = tbl.inn
+                  · simp only [hbi, if_true] at h ⊢
+                    cases hl : tbl.lvl t with
+                    | none => simpa [hl] using h
+                    | some la =>
+                      obtain ⟨l, a⟩ := la
+                      simp only [hl] at h ⊢
+                      cases ha : act l a r with
+                      | shift =>
+                        simp only [ha] at h ⊢
+                        cases ht : parseTail tbl n lhs false t v ts' with
+                        | none => simp [ht] at h
+                        | some q2 => simp only [ht] at h; simp only [ihT _ _ _ _ _ _ ht]; exact ihL _ _ _ _ _ h
+                      | reduce => simpa [ha] using h
+                      | error => simp [ha] at h
+                  · simpa [hbi] using h
 
-theorem monoE {n m : Nat} (h : n ≤ m) {r : Nat} {ts : List (Tok α)} {x} (hx : parseE tbl n r ts = some x) :
-    parseE tbl m r ts = some x := by
+theorem monoE {n m : Nat} (h : n ≤ m) {r : Nat} {ba : Bool} {ts : List (Tok α)} {x} (hx : parseE tbl n r ba ts = some x) :
+    parseE tbl m r ba ts = some x := by
   induction h with
   | refl => exact hx
-  | step _ ih => exact (mono_step tbl _).1 _ _ _ ih
+  | step _ ih => exact (mono_step tbl _).1 _ _ _ _ ih
 
-theorem monoL {n m : Nat} (h : n ≤ m) {r : Nat} {lhs : Expr α} {ts : List (Tok α)} {x}
-    (hx : parseLoop tbl n r lhs ts = some x) : parseLoop tbl m r lhs ts = some x := by
+theorem monoA {n m : Nat} (h : n ≤ m) {ts : List (Tok α)} {x} (hx : parseArgs tbl n ts = some x) :
+    parseArgs tbl m ts = some x := by
   induction h with
   | refl => exact hx
-  | step _ ih => exact (mono_step tbl _).2.2 _ _ _ _ ih
+  | step _ ih => exact (mono_step tbl _).2.2.1 _ _ ih
 
-theorem loop_pos {n r : Nat} {lhs : Expr α} {ts : List (Tok α)} {x} (h : parseLoop tbl n r lhs ts = some x) : 1 ≤ n := by
+theorem monoL {n m : Nat} (h : n ≤ m) {r : Nat} {ba : Bool} {lhs : Expr α} {ts : List (Tok α)} {x}
+    (hx : parseLoop tbl n r ba lhs ts = some x) : parseLoop tbl m r ba lhs ts = some x := by
+  induction h with
+  | refl => exact hx
+  | step _ ih => exact (mono_step tbl _).2.2.2.2 _ _ _ _ _ ih
+
+theorem loop_pos {n r : Nat} {ba : Bool} {lhs : Expr α} {ts : List (Tok α)} {x} (h : parseLoop tbl n r ba lhs ts = some x) : 1 ≤ n := by
   cases n with
   | zero => simp [parseLoop] at h
   | succ n => omega
 
+theorem trigger_bin {t : α} {la : Nat × Assoc} (h : tbl.bin t = some la) : trigger tbl t = some la := by
+  simp [trigger, h]
+
+theorem trigger_post {t : α} {la : Nat × Assoc} (hb : tbl.bin t = none) (h : tbl.post t = some la) :
+    trigger tbl t = some la := by
+  simp [trigger, hb, h]
+
+theorem trigger_plain {t : α} (hp : Plain tbl t) (h : t = tbl.neg ∨ t = tbl.btw ∨ t = tbl.inn) :
+    trigger tbl t = tbl.lvl t := by
+  simp [trigger, hp.1, hp.2, h]
+
+theorem trigTok_cases (neg : Bool) (t : α) : trigTok tbl neg t = tbl.neg ∨ trigTok tbl neg t = t := by
+  cases neg <;> simp [trigTok]
+
 /-- a loop whose pending rule is not continued by the next token returns at once -/
 theorem loop_return (r : Nat) (lhs : Expr α) (ts : List (Tok α)) (h : Stop tbl [r] ts) (n : Nat) :
-    parseLoop tbl (n + 1) r lhs ts = some (lhs, ts) := by
+    parseLoop tbl (n + 1) r false lhs ts = some (lhs, ts) := by
   cases ts with
   | nil => simp [parseLoop]
   | cons t ts' =>
@@ -186,170 +489,383 @@ theorem loop_return (r : Nat) (lhs : Expr α) (ts : List (Tok α)) (h : Stop tbl
     | lit w => simp [parseLoop]
     | kw k => simp [parseLoop]
     | sym t v =>
-      simp only [parseLoop]
-      unfold Stop at h
+      have hs : ∀ l a, trigger tbl t = some (l, a) → act l a r = .reduce := by
+        intro l a ht
+        simp only [Stop, ht] at h
+        exact h r (by simp)
+      simp only [parseLoop, Bool.false_and, Bool.false_eq_true, if_false]
       cases hb : tbl.bin t with
       | some la =>
         obtain ⟨l, a⟩ := la
-        simp only [hb] at h ⊢
-        have := h r (by simp)
-        simp [this]
+        simp [hs l a (trigger_bin tbl hb)]
       | none =>
-        simp only [hb] at h ⊢
         cases hp : tbl.post t with
-        | none => simp
         | some la =>
           obtain ⟨l, a⟩ := la
-          simp only [hp] at h ⊢
-          have := h r (by simp)
-          simp [this]
+          simp [hs l a (trigger_post tbl hb hp)]
+        | none =>
+          by_cases hn : t = tbl.neg
+          · cases hl : tbl.lvl t with
+            | none => subst hn; simp [hl]
+            | some la =>
+              obtain ⟨l, a⟩ := la
+              have := hs l a (by rw [trigger_plain tbl ⟨hb, hp⟩ (Or.inl hn), hl])
+              subst hn
+              simp [hl, this]
+          · by_cases hbi : t = tbl.btw ∨ t = tbl.inn
+            · cases hl : tbl.lvl t with
+              | none => simp [hn, hbi, hl]
+              | some la =>
+                obtain ⟨l, a⟩ := la
+                have := hs l a (by rw [trigger_plain tbl ⟨hb, hp⟩ (Or.inr hbi), hl])
+                simp [hn, hbi, hl, this]
+            · simp [hn, hbi]
 
-theorem stop_nonsym_rpar (cs : List Nat) (rest : List (Tok α)) : Stop tbl cs (.rpar :: rest) := by
+/-- the loop that reads the lower bound of a BETWEEN returns at the AND -/
+theorem loop_return_and (r : Nat) (lhs : Expr α) (ts : List (Tok α)) (h : AtAnd tbl ts) (n : Nat) :
+    parseLoop tbl (n + 1) r true lhs ts = some (lhs, ts) := by
+  cases ts with
+  | nil => simp [AtAnd] at h
+  | cons t ts' =>
+    cases t with
+    | sym t v => simp only [AtAnd] at h; simp [parseLoop, h]
+    | _ => simp [AtAnd] at h
+
+theorem parseCursor_print (c : Nat) (hc : isId c = true) (neg range : Bool) (rest : List (Tok α)) :
+    parseCursor tbl (.atom c :: .sym tbl.is_ 0 :: ((negToks tbl neg ++ (if range then [.sym tbl.inn 0, .lit 11] else [.lit 10])) ++ rest)) =
+      some (.cstat c neg range, rest) := by
+  cases neg <;> cases range <;> simp [negToks, parseCursor, hc]
+
+theorem stop_rpar (cs : List Nat) (rest : List (Tok α)) : Stop tbl cs (.rpar :: rest) := by
   simp [Stop]
 
+theorem stop_comma (cs : List Nat) (rest : List (Tok α)) : Stop tbl cs (.kw .comma :: rest) := by
+  simp [Stop]
+
+theorem noLpar_sym (t : α) (v : Nat) (tl : List (Tok α)) : NoLpar (.sym t v :: tl) := by simp [NoLpar]
+theorem noLpar_rpar (tl : List (Tok α)) : NoLpar (Tok.rpar (α := α) :: tl) := by simp [NoLpar]
+theorem noLpar_comma (tl : List (Tok α)) : NoLpar (Tok.kw (α := α) .comma :: tl) := by simp [NoLpar]
+
+theorem negToks_append (neg : Bool) (t : α) (tl : List (Tok α)) :
+    negToks tbl neg ++ .sym t 0 :: tl = .sym (trigTok tbl neg t) 0 :: (if neg then .sym t 0 :: tl else tl) := by
+  cases neg <;> simp [negToks, trigTok]
+
+/-- the loop step that applies `[NOT] t …` through the tail dispatcher, for t = BETWEEN or IN -/
+theorem loop_tail_step (n r : Nat) (ba : Bool) (lhs e' : Expr α) (neg : Bool) (t : α) (tl rest : List (Tok α))
+    (res : Expr α × List (Tok α)) (ht : t = tbl.btw ∨ t = tbl.inn)
+    (hplain : Plain tbl (trigTok tbl neg t)) (hne : neg = false → t ≠ tbl.neg)
+    {l : Nat} {a : Assoc} (hl : tbl.lvl (trigTok tbl neg t) = some (l, a)) (hshift : act l a r = .shift)
+    (hba : ba = true → trigTok tbl neg t ≠ tbl.and_)
+    (htail : parseTail tbl n lhs neg t 0 tl = some (e', rest))
+    (hloop : parseLoop tbl n r ba e' rest = some res) :
+    parseLoop tbl (n + 1) r ba lhs (negToks tbl neg ++ .sym t 0 :: tl) = some res := by
+  have hba' : (ba && decide (trigTok tbl neg t = tbl.and_)) = false := by
+    cases ba
+    · simp
+    · simp [hba rfl]
+  cases neg with
+  | false =>
+    simp only [trigTok, Bool.false_eq_true, if_false] at hplain hl hba'
+    have hn : t ≠ tbl.neg := hne rfl
+    simp only [negToks, Bool.false_eq_true, if_false, List.nil_append, parseLoop, hba', hplain.1, hplain.2, hn, ht, if_true,
+      hl, hshift, htail, hloop]
+  | true =>
+    simp only [trigTok, if_true] at hplain hl hba'
+    simp only [negToks, if_true, List.cons_append, List.nil_append, parseLoop, hba', hplain.1, hplain.2, hl, hshift,
+      nextSym, htail, hloop, Bool.false_eq_true, if_false]
+
+mutual
 /-- reading a well-formed tree back: if the loop that holds `e` as its left operand goes on to `res`,
     then so does the parser started on the printed tokens of `e` (with enough fuel) -/
-theorem parseE_print : ∀ (e : Expr α), WF tbl e → ∀ (r : Nat) (rest : List (Tok α)) (n : Nat) (res : Expr α × List (Tok α)),
-    Fits tbl r e → Stop tbl (rctx tbl e) rest → parseLoop tbl n r e rest = some res →
-    ∀ m, n + cost e ≤ m → parseE tbl m r (print tbl e ++ rest) = some res
-  | .atom k, _, r, rest, n, res, _, _, h, m, hm => by
+theorem parseE_print : ∀ (e : Expr α), WF tbl e → ∀ (r : Nat) (ba : Bool) (rest : List (Tok α)) (n : Nat) (res : Expr α × List (Tok α)),
+    Fits tbl r ba e → Stop tbl (rctx tbl e) rest → NoLpar rest → parseLoop tbl n r ba e rest = some res →
+    ∀ m, n + cost e ≤ m → parseE tbl m r ba (print tbl e ++ rest) = some res
+  | .atom k, _, r, ba, rest, n, res, _, _, hnl, h, m, hm => by
     have hn := loop_pos tbl h
     obtain ⟨m1, rfl⟩ : ∃ m1, m = m1 + 1 := ⟨m - 1, by simp [cost] at hm; omega⟩
     obtain ⟨m2, rfl⟩ : ∃ m2, m1 = m2 + 1 := ⟨m1 - 1, by simp [cost] at hm; omega⟩
-    simp only [print, List.cons_append, List.nil_append, parseE, parseUnit]
+    simp only [print, List.cons_append, List.nil_append, parseE, parseUnit, expectLpar_noLpar hnl]
     exact monoL tbl (by simp [cost] at hm; omega) h
-  | .paren x, hwf, r, rest, n, res, _, _, h, m, hm => by
+  | .cattr c, hwf, r, ba, rest, n, res, _, _, _, h, m, hm => by
+    have hn := loop_pos tbl h
+    obtain ⟨m1, rfl⟩ : ∃ m1, m = m1 + 1 := ⟨m - 1, by simp [cost] at hm; omega⟩
+    obtain ⟨m2, rfl⟩ : ∃ m2, m1 = m2 + 1 := ⟨m1 - 1, by simp [cost] at hm; omega⟩
+    have hc : isId c = true := hwf
+    simp only [print, List.cons_append, List.nil_append, parseE, parseUnit, if_true, parseCursor, hc]
+    exact monoL tbl (by simp [cost] at hm; omega) h
+  | .cstat c neg range, hwf, r, ba, rest, n, res, _, _, _, h, m, hm => by
+    have hn := loop_pos tbl h
+    obtain ⟨m1, rfl⟩ : ∃ m1, m = m1 + 1 := ⟨m - 1, by simp [cost] at hm; omega⟩
+    obtain ⟨m2, rfl⟩ : ∃ m2, m1 = m2 + 1 := ⟨m1 - 1, by simp [cost] at hm; omega⟩
+    have hc : isId c = true := hwf
+    have hp := parseCursor_print tbl c hc neg range rest
+    simp only [print, List.cons_append, parseE, parseUnit, if_true]
+    rw [hp]
+    exact monoL tbl (by simp [cost] at hm; omega) h
+  | .call f as, hwf, r, ba, rest, n, res, _, _, _, h, m, hm => by
+    have hn := loop_pos tbl h
+    obtain ⟨hf, hwa⟩ := hwf
+    obtain ⟨m1, rfl⟩ : ∃ m1, m = m1 + 1 := ⟨m - 1, by simp [cost] at hm; omega⟩
+    obtain ⟨m2, rfl⟩ : ∃ m2, m1 = m2 + 1 := ⟨m1 - 1, by simp [cost] at hm; omega⟩
+    by_cases hnil : as = .nil
+    · subst hnil
+      simp only [print, printArgs, List.cons_append, List.nil_append, parseE, parseUnit, expectLpar, expectRpar, hf, if_true]
+      exact monoL tbl (by simp [cost] at hm; omega) h
+    · obtain ⟨a, tl, ha, hok⟩ := printArgs_head tbl as hnil
+      have hargs := parseArgs_print as hnil hwa rest m2 (by simp [cost] at hm; omega)
+      have e1 : print tbl (.call f as) ++ rest = .atom f :: .lpar :: (printArgs tbl as ++ .rpar :: rest) := by simp [print]
+      have e2 : expectRpar (printArgs tbl as ++ .rpar :: rest) = none := by
+        rw [ha, List.cons_append]; exact expectRpar_head hok
+      rw [e1]
+      simp only [parseE, parseUnit, expectLpar, hf, if_true, e2, hargs]
+      simp only [expectRpar]
+      exact monoL tbl (by simp [cost] at hm; omega) h
+  | .paren x, hwf, r, ba, rest, n, res, _, _, _, h, m, hm => by
     have hn := loop_pos tbl h
     obtain ⟨hwx, hfx⟩ := hwf
     obtain ⟨m1, rfl⟩ : ∃ m1, m = m1 + 1 := ⟨m - 1, by simp [cost] at hm; omega⟩
     obtain ⟨m2, rfl⟩ : ∃ m2, m1 = m2 + 1 := ⟨m1 - 1, by simp [cost] at hm; omega⟩
-    have hx : parseE tbl m2 0 (print tbl x ++ .rpar :: rest) = some (x, .rpar :: rest) :=
-      parseE_print x hwx 0 (.rpar :: rest) 1 (x, .rpar :: rest) hfx (stop_nonsym_rpar tbl _ _)
-        (loop_return tbl 0 x _ (stop_nonsym_rpar tbl _ _) 0) m2 (by simp [cost] at hm; omega)
+    have hx : parseE tbl m2 0 false (print tbl x ++ .rpar :: rest) = some (x, .rpar :: rest) :=
+      parseE_print x hwx 0 false (.rpar :: rest) 1 (x, .rpar :: rest) hfx (stop_rpar tbl _ _) (noLpar_rpar _)
+        (loop_return tbl 0 x _ (stop_rpar tbl _ _) 0) m2 (by simp [cost] at hm; omega)
     have e1 : print tbl (.paren x) ++ rest = .lpar :: (print tbl x ++ .rpar :: rest) := by simp [print]
     rw [e1]
     simp only [parseE, parseUnit, hx]
     exact monoL tbl (by simp [cost] at hm; omega) h
-  | .pre t v x, hwf, r, rest, n, res, _, hstop, h, m, hm => by
+  | .pre t v x, hwf, r, ba, rest, n, res, _, hstop, hnl, h, m, hm => by
     have hn := loop_pos tbl h
     obtain ⟨p, hp, hwx, hfx⟩ := hwf
     obtain ⟨m1, rfl⟩ : ∃ m1, m = m1 + 1 := ⟨m - 1, by simp [cost] at hm; omega⟩
     obtain ⟨m2, rfl⟩ : ∃ m2, m1 = m2 + 1 := ⟨m1 - 1, by simp [cost] at hm; omega⟩
     have hc : rctx tbl (.pre t v x) = p :: rctx tbl x := by simp [rctx, hp]
     rw [hc] at hstop
-    have hstop1 : Stop tbl [p] rest := by
-      unfold Stop at hstop ⊢
-      split
-      · rename_i t' v' ts'
-        simp only at hstop
-        cases hb : tbl.bin t' with
-        | some la => obtain ⟨l, a⟩ := la; simp only [hb] at hstop ⊢; intro c hc; exact hstop c (by simp at hc; simp [hc])
-        | none =>
-          simp only [hb] at hstop ⊢
-          cases hq : tbl.post t' with
-          | none => trivial
-          | some la => obtain ⟨l, a⟩ := la; simp only [hq] at hstop ⊢; intro c hc; exact hstop c (by simp at hc; simp [hc])
-      · trivial
-    have hstop2 : Stop tbl (rctx tbl x) rest := by
-      unfold Stop at hstop ⊢
-      split
-      · rename_i t' v' ts'
-        simp only at hstop
-        cases hb : tbl.bin t' with
-        | some la => obtain ⟨l, a⟩ := la; simp only [hb] at hstop ⊢; intro c hc; exact hstop c (by simp [hc])
-        | none =>
-          simp only [hb] at hstop ⊢
-          cases hq : tbl.post t' with
-          | none => trivial
-          | some la => obtain ⟨l, a⟩ := la; simp only [hq] at hstop ⊢; intro c hc; exact hstop c (by simp [hc])
-      · trivial
-    have hx : parseE tbl m2 p (print tbl x ++ rest) = some (x, rest) :=
-      parseE_print x hwx p rest 1 (x, rest) hfx hstop2 (loop_return tbl p x _ hstop1 0) m2 (by simp [cost] at hm; omega)
+    obtain ⟨hstop1, hstop2⟩ := stop_split tbl hstop
+    have hx : parseE tbl m2 p false (print tbl x ++ rest) = some (x, rest) :=
+      parseE_print x hwx p false rest 1 (x, rest) hfx hstop2 hnl (loop_return tbl p x _ hstop1 0) m2 (by simp [cost] at hm; omega)
     have e1 : print tbl (.pre t v x) ++ rest = .sym t v :: (print tbl x ++ rest) := by simp [print]
     rw [e1]
     simp only [parseE, parseUnit, hp, hx]
     exact monoL tbl (by simp [cost] at hm; omega) h
-  | .bin L t v R, hwf, r, rest, n, res, hfit, hstop, h, m, hm => by
+  | .bin L t v R, hwf, r, ba, rest, n, res, hfit, hstop, hnl, h, m, hm => by
     have hn := loop_pos tbl h
     obtain ⟨l, a, hb, hwL, hwR, hred, hfR⟩ := hwf
     have hc : rctx tbl (.bin L t v R) = l :: rctx tbl R := by simp [rctx, hb]
     rw [hc] at hstop
-    have hstop1 : Stop tbl [l] rest := by
-      unfold Stop at hstop ⊢
-      split
-      · rename_i t' v' ts'
-        simp only at hstop
-        cases hb' : tbl.bin t' with
-        | some la => obtain ⟨l', a'⟩ := la; simp only [hb'] at hstop ⊢; intro c hc; exact hstop c (by simp at hc; simp [hc])
-        | none =>
-          simp only [hb'] at hstop ⊢
-          cases hq : tbl.post t' with
-          | none => trivial
-          | some la => obtain ⟨l', a'⟩ := la; simp only [hq] at hstop ⊢; intro c hc; exact hstop c (by simp at hc; simp [hc])
-      · trivial
-    have hstop2 : Stop tbl (rctx tbl R) rest := by
-      unfold Stop at hstop ⊢
-      split
-      · rename_i t' v' ts'
-        simp only at hstop
-        cases hb' : tbl.bin t' with
-        | some la => obtain ⟨l', a'⟩ := la; simp only [hb'] at hstop ⊢; intro c hc; exact hstop c (by simp [hc])
-        | none =>
-          simp only [hb'] at hstop ⊢
-          cases hq : tbl.post t' with
-          | none => trivial
-          | some la => obtain ⟨l', a'⟩ := la; simp only [hq] at hstop ⊢; intro c hc; exact hstop c (by simp [hc])
-      · trivial
-    -- the right operand, parsed with the operator's own level pending
-    have hR : parseE tbl (n + cost R) l (print tbl R ++ rest) = some (R, rest) :=
-      parseE_print R hwR l rest 1 (R, rest) hfR hstop2 (loop_return tbl l R _ hstop1 0) (n + cost R) (by omega)
-    -- the operator is shifted by the loop that holds L
-    have hshift : act l a r = .shift := hfit (l, a) (by simp [lops, hb])
-    have hloop : parseLoop tbl (n + cost R + 1) r L (.sym t v :: (print tbl R ++ rest)) = some res := by
-      simp only [parseLoop, hb, hshift, hR]
+    obtain ⟨hstop1, hstop2⟩ := stop_split tbl hstop
+    have hR : parseE tbl (n + cost R) l false (print tbl R ++ rest) = some (R, rest) :=
+      parseE_print R hwR l false rest 1 (R, rest) hfR hstop2 hnl (loop_return tbl l R _ hstop1 0) (n + cost R) (by omega)
+    have htr := trigger_bin tbl hb
+    have hsh := hfit (t, l, a) (by simp [lops, htr])
+    have hba : (ba && decide (t = tbl.and_)) = false := by
+      cases ba
+      · simp
+      · simp [hsh.2 rfl]
+    have hloop : parseLoop tbl (n + cost R + 1) r ba L (.sym t v :: (print tbl R ++ rest)) = some res := by
+      simp only [parseLoop, hba, hb, hsh.1, hR]
       exact monoL tbl (by omega) h
-    have hfL : Fits tbl r L := fun la hla => hfit la (by simp [lops, hb, hla])
-    have hstopL : Stop tbl (rctx tbl L) (.sym t v :: (print tbl R ++ rest)) := by
-      simp only [Stop, hb]; exact hred
+    have hfL : Fits tbl r ba L := fun x hx => hfit x (by simp [lops, hx])
     have e1 : print tbl (.bin L t v R) ++ rest = print tbl L ++ .sym t v :: (print tbl R ++ rest) := by simp [print]
     rw [e1]
-    exact parseE_print L hwL r _ (n + cost R + 1) res hfL hstopL hloop m (by simp [cost] at hm; omega)
-  | .post x t neg w, hwf, r, rest, n, res, hfit, _, h, m, hm => by
-    obtain ⟨hb, l, a, hp, hwx, hred⟩ := hwf
-    have hshift : act l a r = .shift := hfit (l, a) (by simp [lops, hp])
-    have hfx : Fits tbl r x := fun la hla => hfit la (by simp [lops, hp, hla])
+    exact parseE_print L hwL r ba _ (n + cost R + 1) res hfL (stop_sym tbl htr hred) (noLpar_sym _ _ _) hloop m
+      (by simp [cost] at hm; omega)
+  | .post x t neg w, hwf, r, ba, rest, n, res, hfit, _, _, h, m, hm => by
+    obtain ⟨hb, hw4, l, a, hp, hwx, hred⟩ := hwf
+    have htr := trigger_post tbl hb hp
+    have hsh := hfit (t, l, a) (by simp [lops, htr])
+    have hba : (ba && decide (t = tbl.and_)) = false := by
+      cases ba
+      · simp
+      · simp [hsh.2 rfl]
+    have hfx : Fits tbl r ba x := fun y hy => hfit y (by simp [lops, hy])
     have htail : postTail tbl ((if neg then [.sym tbl.neg 0] else []) ++ [.lit w] ++ rest) = some (neg, w, rest) := by
-      cases neg <;> simp [postTail]
-    have hloop : parseLoop tbl (n + 1) r x (.sym t 0 :: ((if neg then [.sym tbl.neg 0] else []) ++ [.lit w] ++ rest)) = some res := by
-      simp only [parseLoop, hb, hp, hshift, htail]
+      cases neg <;> simp [postTail, hw4]
+    have hloop : parseLoop tbl (n + 1) r ba x (.sym t 0 :: ((if neg then [.sym tbl.neg 0] else []) ++ [.lit w] ++ rest)) = some res := by
+      simp only [parseLoop, hba, hb, hp, hsh.1, htail]
       exact h
-    have hstopx : Stop tbl (rctx tbl x) (.sym t 0 :: ((if neg then [.sym tbl.neg 0] else []) ++ [.lit w] ++ rest)) := by
-      simp only [Stop, hb, hp]; exact hred
     have e1 : print tbl (.post x t neg w) ++ rest =
         print tbl x ++ .sym t 0 :: ((if neg then [.sym tbl.neg 0] else []) ++ [.lit w] ++ rest) := by simp [print]
     rw [e1]
-    exact parseE_print x hwx r _ (n + 1) res hfx hstopx hloop m (by simp [cost] at hm; omega)
+    exact parseE_print x hwx r ba _ (n + 1) res hfx (stop_sym tbl htr hred) (noLpar_sym _ _ _) hloop m (by simp [cost] at hm; omega)
+  | .nbin L t v R, hwf, r, ba, rest, n, res, hfit, hstop, hnl, h, m, hm => by
+    have hn := loop_pos tbl h
+    obtain ⟨hplain, htb, hti, hneg, ⟨ln, an, hlv, hredL⟩, l, a, hb, hwL, hwR, hfR⟩ := hwf
+    have hc : rctx tbl (.nbin L t v R) = l :: rctx tbl R := by simp [rctx, hb]
+    rw [hc] at hstop
+    obtain ⟨hstop1, hstop2⟩ := stop_split tbl hstop
+    have hR : parseE tbl (n + cost R) l false (print tbl R ++ rest) = some (R, rest) :=
+      parseE_print R hwR l false rest 1 (R, rest) hfR hstop2 hnl (loop_return tbl l R _ hstop1 0) (n + cost R) (by omega)
+    have htail : parseTail tbl (n + cost R + 1) L true t v (print tbl R ++ rest) = some (.nbin L t v R, rest) := by
+      simp only [parseTail, htb, hti, if_false, Bool.true_and, hneg, if_true, hb, hR]
+    have htr : trigger tbl tbl.neg = some (ln, an) := by rw [trigger_plain tbl hplain (Or.inl rfl), hlv]
+    have hsh := hfit (tbl.neg, ln, an) (by simp [lops, htr])
+    have hba : (ba && decide (tbl.neg = tbl.and_)) = false := by
+      cases ba
+      · simp
+      · simp [hsh.2 rfl]
+    have hloop : parseLoop tbl (n + cost R + 2) r ba L (.sym tbl.neg 0 :: .sym t v :: (print tbl R ++ rest)) = some res := by
+      rw [parseLoop]
+      simp only [hba, hplain.1, hplain.2, if_true, hlv, hsh.1, nextSym, htail, Bool.false_eq_true, if_false]
+      exact monoL tbl (by omega) h
+    have hfL : Fits tbl r ba L := fun x hx => hfit x (by simp [lops, hx])
+    have e1 : print tbl (.nbin L t v R) ++ rest = print tbl L ++ .sym tbl.neg 0 :: .sym t v :: (print tbl R ++ rest) := by simp [print]
+    rw [e1]
+    exact parseE_print L hwL r ba _ (n + cost R + 2) res hfL (stop_sym tbl htr hredL) (noLpar_sym _ _ _) hloop m
+      (by simp [cost] at hm; omega)
+  | .between x neg lo hi, hwf, r, ba, rest, n, res, hfit, hstop, hnl, h, m, hm => by
+    have hn := loop_pos tbl h
+    obtain ⟨hplain, hne, ⟨lt, at_, hlv, hredx⟩, la, aa, hand, hwx, hwlo, hwhi, hflo, hredlo, hfhi⟩ := hwf
+    have hc : rctx tbl (.between x neg lo hi) = la :: rctx tbl hi := by simp [rctx, hand]
+    rw [hc] at hstop
+    obtain ⟨hstop1, hstop2⟩ := stop_split tbl hstop
+    have hhi : parseE tbl (n + cost lo + cost hi) la false (print tbl hi ++ rest) = some (hi, rest) :=
+      parseE_print hi hwhi la false rest 1 (hi, rest) hfhi hstop2 hnl (loop_return tbl la hi _ hstop1 0) _ (by omega)
+    have hlo : parseE tbl (n + cost lo + cost hi) 0 true (print tbl lo ++ .sym tbl.and_ 0 :: (print tbl hi ++ rest)) =
+        some (lo, .sym tbl.and_ 0 :: (print tbl hi ++ rest)) :=
+      parseE_print lo hwlo 0 true _ 1 (lo, _) hflo (stop_sym tbl (trigger_bin tbl hand) hredlo) (noLpar_sym _ _ _)
+        (loop_return_and tbl 0 lo _ (by simp [AtAnd]) 0) _ (by omega)
+    have htail : parseTail tbl (n + cost lo + cost hi + 1) x neg tbl.btw 0
+        (print tbl lo ++ .sym tbl.and_ 0 :: (print tbl hi ++ rest)) = some (.between x neg lo hi, rest) := by
+      simp only [parseTail, if_true, hand, hlo, expectSym, hhi]
+    have hK := trigTok_cases tbl neg tbl.btw
+    have htr : trigger tbl (trigTok tbl neg tbl.btw) = some (lt, at_) := by
+      rw [trigger_plain tbl hplain (by rcases hK with h | h <;> simp [h]), hlv]
+    have hsh := hfit (trigTok tbl neg tbl.btw, lt, at_) (by simp [lops, htr])
+    have hloop := loop_tail_step tbl (n + cost lo + cost hi + 1) r ba x (.between x neg lo hi) neg tbl.btw _ rest res
+      (Or.inl rfl) hplain hne hlv hsh.1 hsh.2 htail (monoL tbl (by omega) h)
+    have hfx : Fits tbl r ba x := fun y hy => hfit y (by simp [lops, hy])
+    have e1 : print tbl (.between x neg lo hi) ++ rest =
+        print tbl x ++ (negToks tbl neg ++ .sym tbl.btw 0 :: (print tbl lo ++ .sym tbl.and_ 0 :: (print tbl hi ++ rest))) := by
+      simp [print]
+    have hst : Stop tbl (rctx tbl x) (negToks tbl neg ++ .sym tbl.btw 0 :: (print tbl lo ++ .sym tbl.and_ 0 :: (print tbl hi ++ rest))) := by
+      rw [negToks_append]; exact stop_sym tbl htr hredx
+    have hnl' : NoLpar (negToks tbl neg ++ .sym tbl.btw 0 :: (print tbl lo ++ .sym tbl.and_ 0 :: (print tbl hi ++ rest))) := by
+      rw [negToks_append]; exact noLpar_sym _ _ _
+    rw [e1]
+    exact parseE_print x hwx r ba _ (n + cost lo + cost hi + 2) res hfx hst hnl' hloop m (by simp [cost] at hm; omega)
+  | .inl x neg vs, hwf, r, ba, rest, n, res, hfit, _, _, h, m, hm => by
+    have hn := loop_pos tbl h
+    obtain ⟨hplain, hne, hib, ⟨lt, at_, hlv, hredx⟩, hwx, hnil, hwvs⟩ := hwf
+    have hargs := parseArgs_print vs hnil hwvs rest (n + costArgs vs + 1) (by omega)
+    have htail : parseTail tbl (n + costArgs vs + 2) x neg tbl.inn 0 (.lpar :: (printArgs tbl vs ++ .rpar :: rest)) =
+        some (.inl x neg vs, rest) := by
+      simp only [parseTail, hib, if_false, if_true, expectLpar, hargs, expectRpar]
+    have hK := trigTok_cases tbl neg tbl.inn
+    have htr : trigger tbl (trigTok tbl neg tbl.inn) = some (lt, at_) := by
+      rw [trigger_plain tbl hplain (by rcases hK with h | h <;> simp [h]), hlv]
+    have hsh := hfit (trigTok tbl neg tbl.inn, lt, at_) (by simp [lops, htr])
+    have hloop := loop_tail_step tbl (n + costArgs vs + 2) r ba x (.inl x neg vs) neg tbl.inn _ rest res
+      (Or.inr rfl) hplain hne hlv hsh.1 hsh.2 htail (monoL tbl (by omega) h)
+    have hfx : Fits tbl r ba x := fun y hy => hfit y (by simp [lops, hy])
+    have e1 : print tbl (.inl x neg vs) ++ rest =
+        print tbl x ++ (negToks tbl neg ++ .sym tbl.inn 0 :: (.lpar :: (printArgs tbl vs ++ .rpar :: rest))) := by
+      simp [print]
+    have hst : Stop tbl (rctx tbl x) (negToks tbl neg ++ .sym tbl.inn 0 :: (.lpar :: (printArgs tbl vs ++ .rpar :: rest))) := by
+      rw [negToks_append]; exact stop_sym tbl htr hredx
+    have hnl' : NoLpar (negToks tbl neg ++ .sym tbl.inn 0 :: (.lpar :: (printArgs tbl vs ++ .rpar :: rest))) := by
+      rw [negToks_append]; exact noLpar_sym _ _ _
+    rw [e1]
+    exact parseE_print x hwx r ba _ (n + costArgs vs + 3) res hfx hst hnl' hloop m (by simp [cost] at hm; omega)
+/-- a non-empty argument list in front of its closing parenthesis is read back -/
+theorem parseArgs_print : ∀ (as : Args α), as ≠ .nil → WFArgs tbl as → ∀ (rest : List (Tok α)) (m : Nat), costArgs as + 1 ≤ m →
+    parseArgs tbl m (printArgs tbl as ++ .rpar :: rest) = some (as, .rpar :: rest)
+  | .nil, hne, _, _, _, _ => absurd rfl hne
+  | .cons e .nil, _, hw, rest, m, hm => by
+    obtain ⟨hwe, hfe, _⟩ := hw
+    obtain ⟨m1, rfl⟩ : ∃ m1, m = m1 + 1 := ⟨m - 1, by omega⟩
+    have he : parseE tbl m1 0 false (print tbl e ++ .rpar :: rest) = some (e, .rpar :: rest) :=
+      parseE_print e hwe 0 false _ 1 (e, _) hfe (stop_rpar tbl _ _) (noLpar_rpar _) (loop_return tbl 0 e _ (stop_rpar tbl _ _) 0) m1
+        (by simp [costArgs] at hm; omega)
+    simp only [printArgs, parseArgs, he, takeComma]
+  | .cons e (.cons e2 r2), _, hw, rest, m, hm => by
+    obtain ⟨hwe, hfe, hw2⟩ := hw
+    obtain ⟨m1, rfl⟩ : ∃ m1, m = m1 + 1 := ⟨m - 1, by omega⟩
+    have he : parseE tbl m1 0 false (print tbl e ++ .kw .comma :: (printArgs tbl (.cons e2 r2) ++ .rpar :: rest)) =
+        some (e, .kw .comma :: (printArgs tbl (.cons e2 r2) ++ .rpar :: rest)) :=
+      parseE_print e hwe 0 false _ 1 (e, _) hfe (stop_comma tbl _ _) (noLpar_comma _) (loop_return tbl 0 e _ (stop_comma tbl _ _) 0) m1
+        (by simp [costArgs] at hm; omega)
+    have hr := parseArgs_print (.cons e2 r2) (by simp) hw2 rest m1 (by simp [costArgs] at hm ⊢; omega)
+    have e1 : printArgs tbl (.cons e (.cons e2 r2)) ++ .rpar :: rest =
+        print tbl e ++ .kw .comma :: (printArgs tbl (.cons e2 r2) ++ .rpar :: rest) := by simp [printArgs]
+    rw [e1]
+    simp only [parseArgs, he, takeComma, hr]
+end
 
 /-! ## everything the parser returns is well formed -/
 
-theorem stop_cons {l : Nat} {a : Assoc} {c : Nat} {cs : List Nat} (h1 : act l a c = .reduce) (h2 : Reduces l a cs) :
-    Reduces l a (c :: cs) := by
-  intro x hx
-  simp at hx
-  rcases hx with rfl | hx
-  · exact h1
-  · exact h2 x hx
+theorem stop_cons' {c : Nat} {cs : List Nat} {ts : List (Tok α)} (h1 : Stop tbl [c] ts) (h2 : Stop tbl cs ts) :
+    Stop tbl (c :: cs) ts := by
+  unfold Stop at h1 h2 ⊢
+  split
+  · rename_i t v tl
+    simp only at h1 h2
+    cases ht : trigger tbl t with
+    | none => simp
+    | some la =>
+      obtain ⟨l, a⟩ := la
+      simp only [ht] at h1 h2 ⊢
+      intro x hx
+      simp at hx
+      rcases hx with rfl | hx
+      · exact h1 x (by simp)
+      · exact h2 x hx
+  · trivial
+
+/-- how a loop with pending rule `r` (ending at AND if `ba`) may end -/
+def End (r : Nat) (ba : Bool) (ts : List (Tok α)) : Prop := Stop tbl [r] ts ∨ (ba = true ∧ AtAnd tbl ts)
+
+theorem end_false {r : Nat} {ts : List (Tok α)} (h : End tbl r false ts) : Stop tbl [r] ts := by
+  rcases h with h | ⟨h, _⟩
+  · exact h
+  · simp at h
+
+theorem postTail_some {ts : List (Tok α)} {neg : Bool} {w : Nat} {r : List (Tok α)}
+    (h : postTail tbl ts = some (neg, w, r)) : w < 4 := by
+  unfold postTail at h
+  split at h
+  · split at h
+    · simp at h; omega
+    · simp at h
+  · split at h
+    · rename_i hc; simp at h; omega
+    · simp at h
+  · simp at h
+
+theorem parseCursor_inv {ts : List (Tok α)} {e : Expr α} {rest : List (Tok α)} (h : parseCursor tbl ts = some (e, rest)) :
+    WF tbl e ∧ lops tbl e = [] ∧ rctx tbl e = [] := by
+  unfold parseCursor at h
+  split at h
+  all_goals first
+    | (simp at h; done)
+    | (split at h
+       · rename_i hc
+         simp only [Option.some.injEq, Prod.mk.injEq] at h
+         obtain ⟨rfl, _⟩ := h
+         simp_all [WF, lops, rctx]
+       · simp at h)
+
+theorem reduces_of_stop {cs : List Nat} {t : α} {v : Nat} {tl : List (Tok α)} {l : Nat} {a : Assoc}
+    (hs : Stop tbl cs (.sym t v :: tl)) (ht : trigger tbl t = some (l, a)) : Reduces l a cs := by
+  simpa [Stop, ht] using hs
 
 theorem parse_inv : ∀ n : Nat,
-    (∀ r ts e rest, parseE tbl n r ts = some (e, rest) → WF tbl e ∧ Fits tbl r e ∧ Stop tbl (r :: rctx tbl e) rest) ∧
+    (∀ r ba ts e rest, parseE tbl n r ba ts = some (e, rest) →
+      WF tbl e ∧ Fits tbl r ba e ∧ Stop tbl (rctx tbl e) rest ∧ End tbl r ba rest) ∧
     (∀ ts e rest, parseUnit tbl n ts = some (e, rest) → WF tbl e ∧ lops tbl e = [] ∧ Stop tbl (rctx tbl e) rest) ∧
-    (∀ r lhs ts e rest, WF tbl lhs → Fits tbl r lhs → Stop tbl (rctx tbl lhs) ts →
-      parseLoop tbl n r lhs ts = some (e, rest) → WF tbl e ∧ Fits tbl r e ∧ Stop tbl (r :: rctx tbl e) rest)
-  | 0 => by simp [parseE, parseUnit, parseLoop]
+    (∀ ts as rest, parseArgs tbl n ts = some (as, rest) → WFArgs tbl as ∧ as ≠ .nil) ∧
+    (∀ lhs neg t v ts e rest, parseTail tbl n lhs neg t v ts = some (e, rest) →
+      (t = tbl.btw ∧ ∃ lo hi la aa, e = .between lhs neg lo hi ∧ tbl.bin tbl.and_ = some (la, aa) ∧ WF tbl lo ∧ WF tbl hi ∧
+        Fits tbl 0 true lo ∧ Reduces la aa (rctx tbl lo) ∧ Fits tbl la false hi ∧ Stop tbl (la :: rctx tbl hi) rest) ∨
+      (t ≠ tbl.btw ∧ t = tbl.inn ∧ ∃ vs, e = .inl lhs neg vs ∧ vs ≠ .nil ∧ WFArgs tbl vs) ∨
+      (t ≠ tbl.btw ∧ t ≠ tbl.inn ∧ neg = true ∧ tbl.negable t = true ∧ ∃ l a R, e = .nbin lhs t v R ∧ tbl.bin t = some (l, a) ∧
+        WF tbl R ∧ Fits tbl l false R ∧ Stop tbl (l :: rctx tbl R) rest)) ∧
+    (∀ r ba lhs ts e rest, WF tbl lhs → Fits tbl r ba lhs → Stop tbl (rctx tbl lhs) ts →
+      parseLoop tbl n r ba lhs ts = some (e, rest) →
+      WF tbl e ∧ Fits tbl r ba e ∧ Stop tbl (rctx tbl e) rest ∧ End tbl r ba rest)
+  | 0 => by simp [parseE, parseUnit, parseLoop, parseArgs, parseTail]
   | n + 1 => by
-    obtain ⟨ihE, ihU, ihL⟩ := parse_inv n
-    refine ⟨?_, ?_, ?_⟩
-    · intro r ts e rest h
+    obtain ⟨ihE, ihU, ihA, ihT, ihL⟩ := parse_inv n
+    refine ⟨?_, ?_, ?_, ?_, ?_⟩
+    · intro r ba ts e rest h
       rw [parseE] at h
       cases hu : parseUnit tbl n ts with
       | none => simp [hu] at h
@@ -357,22 +873,54 @@ theorem parse_inv : ∀ n : Nat,
         obtain ⟨u, ts1⟩ := p
         simp only [hu] at h
         obtain ⟨hw, hl, hs⟩ := ihU _ _ _ hu
-        exact ihL r u ts1 e rest hw (by intro la hla; rw [hl] at hla; simp at hla) hs h
+        exact ihL r ba u ts1 e rest hw (by intro x hx; rw [hl] at hx; simp at hx) hs h
     · intro ts e rest h
       cases ts with
       | nil => simp [parseUnit] at h
       | cons t ts' =>
         cases t with
         | atom k =>
-          simp only [parseUnit, Option.some.injEq, Prod.mk.injEq] at h
-          obtain ⟨rfl, rfl⟩ := h
-          exact ⟨trivial, rfl, stop_nil tbl _⟩
+          simp only [parseUnit] at h
+          cases hl : expectLpar ts' with
+          | none =>
+            simp only [hl, Option.some.injEq, Prod.mk.injEq] at h
+            obtain ⟨rfl, rfl⟩ := h
+            exact ⟨trivial, rfl, stop_nil tbl _⟩
+          | some ts1 =>
+            simp only [hl] at h
+            by_cases hk : isId k = true
+            · simp only [hk, if_true] at h
+              cases hr : expectRpar ts1 with
+              | some ts2 =>
+                simp only [hr, Option.some.injEq, Prod.mk.injEq] at h
+                obtain ⟨rfl, rfl⟩ := h
+                exact ⟨⟨hk, trivial⟩, rfl, stop_nil tbl _⟩
+              | none =>
+                simp only [hr] at h
+                cases ha : parseArgs tbl n ts1 with
+                | none => simp [ha] at h
+                | some q =>
+                  obtain ⟨as, ts2⟩ := q
+                  simp only [ha] at h
+                  cases hr2 : expectRpar ts2 with
+                  | none => simp [hr2] at h
+                  | some ts3 =>
+                    simp only [hr2, Option.some.injEq, Prod.mk.injEq] at h
+                    obtain ⟨rfl, rfl⟩ := h
+                    exact ⟨⟨hk, (ihA _ _ _ ha).1⟩, rfl, stop_nil tbl _⟩
+            · simp [hk] at h
         | rpar => simp [parseUnit] at h
-        | lit w => simp [parseUnit] at h
+        | lit w =>
+          simp only [parseUnit] at h
+          by_cases hw : w = 9
+          · simp only [hw, if_true] at h
+            obtain ⟨h1, h2, h3⟩ := parseCursor_inv tbl h
+            exact ⟨h1, h2, by rw [h3]; exact stop_nil tbl _⟩
+          · simp [hw] at h
         | kw k => simp [parseUnit] at h
         | lpar =>
           simp only [parseUnit] at h
-          cases he : parseE tbl n 0 ts' with
+          cases he : parseE tbl n 0 false ts' with
           | none => simp [he] at h
           | some p =>
             obtain ⟨x, ts2⟩ := p
@@ -384,7 +932,7 @@ theorem parse_inv : ∀ n : Nat,
               | rpar =>
                 simp only [Option.some.injEq, Prod.mk.injEq] at h
                 obtain ⟨rfl, rfl⟩ := h
-                obtain ⟨hw, hf, _⟩ := ihE _ _ _ _ he
+                obtain ⟨hw, hf, _⟩ := ihE _ _ _ _ _ he
                 exact ⟨⟨hw, hf⟩, rfl, stop_nil tbl _⟩
               | atom k => simp at h
               | lpar => simp at h
@@ -397,86 +945,275 @@ theorem parse_inv : ∀ n : Nat,
           | none => simp [hp] at h
           | some p =>
             simp only [hp] at h
-            cases he : parseE tbl n p ts' with
+            cases he : parseE tbl n p false ts' with
             | none => simp [he] at h
             | some q =>
               obtain ⟨x, ts2⟩ := q
               simp only [he, Option.some.injEq, Prod.mk.injEq] at h
               obtain ⟨rfl, rfl⟩ := h
-              obtain ⟨hw, hf, hs⟩ := ihE _ _ _ _ he
+              obtain ⟨hw, hf, hs, hend⟩ := ihE _ _ _ _ _ he
               refine ⟨⟨p, hp, hw, hf⟩, rfl, ?_⟩
-              simpa [rctx, hp] using hs
-    · intro r lhs ts e rest hw hf hs h
-      have ret : ∀ (hst : Stop tbl (r :: rctx tbl lhs) ts), some (lhs, ts) = some (e, rest) →
-          WF tbl e ∧ Fits tbl r e ∧ Stop tbl (r :: rctx tbl e) rest := by
-        intro hst heq
-        simp only [Option.some.injEq, Prod.mk.injEq] at heq
-        obtain ⟨rfl, rfl⟩ := heq
-        exact ⟨hw, hf, hst⟩
-      cases ts with
-      | nil => exact ret (by simp [Stop]) (by simpa [parseLoop] using h)
-      | cons t ts' =>
-        cases t with
-        | atom k => exact ret (by simp [Stop]) (by simpa [parseLoop] using h)
-        | rpar => exact ret (by simp [Stop]) (by simpa [parseLoop] using h)
-        | lpar => exact ret (by simp [Stop]) (by simpa [parseLoop] using h)
-        | lit w => exact ret (by simp [Stop]) (by simpa [parseLoop] using h)
-        | kw k => exact ret (by simp [Stop]) (by simpa [parseLoop] using h)
-        | sym t v =>
-          simp only [parseLoop] at h
-          cases hb : tbl.bin t with
-          | some la =>
-            obtain ⟨l, a⟩ := la
-            simp only [hb] at h
-            have hred : Reduces l a (rctx tbl lhs) := by simpa [Stop, hb] using hs
-            cases ha : act l a r with
-            | shift =>
+              simpa [rctx, hp] using stop_cons' tbl (end_false tbl hend) hs
+    · intro ts as rest h
+      rw [parseArgs] at h
+      cases he : parseE tbl n 0 false ts with
+      | none => simp [he] at h
+      | some q =>
+        obtain ⟨e, ts1⟩ := q
+        simp only [he] at h
+        obtain ⟨hw, hf, _, _⟩ := ihE _ _ _ _ _ he
+        cases hc : takeComma ts1 with
+        | none =>
+          simp only [hc, Option.some.injEq, Prod.mk.injEq] at h
+          obtain ⟨rfl, rfl⟩ := h
+          exact ⟨⟨hw, hf, trivial⟩, by simp⟩
+        | some ts2 =>
+          simp only [hc] at h
+          cases ha : parseArgs tbl n ts2 with
+          | none => simp [ha] at h
+          | some q2 =>
+            obtain ⟨more, ts3⟩ := q2
+            simp only [ha, Option.some.injEq, Prod.mk.injEq] at h
+            obtain ⟨rfl, rfl⟩ := h
+            exact ⟨⟨hw, hf, (ihA _ _ _ ha).1⟩, by simp⟩
+    · intro lhs neg t v ts e rest h
+      simp only [parseTail] at h
+      by_cases h1 : t = tbl.btw
+      · left
+        simp only [h1, if_true] at h
+        refine ⟨h1, ?_⟩
+        cases hb : tbl.bin tbl.and_ with
+        | none => simp [hb] at h
+        | some la =>
+          obtain ⟨la, aa⟩ := la
+          simp only [hb] at h
+          cases he : parseE tbl n 0 true ts with
+          | none => simp [he] at h
+          | some q =>
+            obtain ⟨lo, ts1⟩ := q
+            simp only [he] at h
+            cases hs : expectSym tbl.and_ ts1 with
+            | none => simp [hs] at h
+            | some ts2 =>
+              simp only [hs] at h
+              cases he2 : parseE tbl n la false ts2 with
+              | none => simp [he2] at h
+              | some q2 =>
+                obtain ⟨hi, ts3⟩ := q2
+                simp only [he2, Option.some.injEq, Prod.mk.injEq] at h
+                obtain ⟨rfl, rfl⟩ := h
+                obtain ⟨hwlo, hflo, hslo, _⟩ := ihE _ _ _ _ _ he
+                obtain ⟨hwhi, hfhi, hshi, hendhi⟩ := ihE _ _ _ _ _ he2
+                obtain ⟨v2, rfl⟩ := expectSym_some hs
+                exact ⟨lo, hi, la, aa, rfl, rfl, hwlo, hwhi, hflo, reduces_of_stop tbl hslo (trigger_bin tbl hb), hfhi,
+                  stop_cons' tbl (end_false tbl hendhi) hshi⟩
+      · right
+        simp only [h1, if_false] at h
+        by_cases h2 : t = tbl.inn
+        · left
+          simp only [h2, if_true] at h
+          refine ⟨h1, h2, ?_⟩
+          cases hl : expectLpar ts with
+          | none => simp [hl] at h
+          | some ts1 =>
+            simp only [hl] at h
+            cases ha : parseArgs tbl n ts1 with
+            | none => simp [ha] at h
+            | some q =>
+              obtain ⟨vs, ts2⟩ := q
               simp only [ha] at h
-              cases he : parseE tbl n l ts' with
-              | none => simp [he] at h
-              | some q =>
-                obtain ⟨rhs, ts2⟩ := q
-                simp only [he] at h
-                obtain ⟨hwr, hfr, hsr⟩ := ihE _ _ _ _ he
-                refine ihL r (.bin lhs t v rhs) ts2 e rest ⟨l, a, hb, hw, hwr, hred, hfr⟩ ?_ ?_ h
-                · intro la hla
-                  simp [lops, hb] at hla
-                  rcases hla with rfl | hla
-                  · exact ha
-                  · exact hf la hla
-                · simpa [rctx, hb] using hsr
-            | reduce =>
-              simp only [ha] at h
-              exact ret (by simp only [Stop, hb]; exact stop_cons ha hred) h
-            | error => simp [ha] at h
-          | none =>
-            simp only [hb] at h
-            cases hp : tbl.post t with
-            | none =>
-              simp only [hp] at h
-              exact ret (by simp [Stop, hb, hp]) h
+              cases hr : expectRpar ts2 with
+              | none => simp [hr] at h
+              | some ts3 =>
+                simp only [hr, Option.some.injEq, Prod.mk.injEq] at h
+                obtain ⟨rfl, rfl⟩ := h
+                obtain ⟨hwv, hne⟩ := ihA _ _ _ ha
+                exact ⟨vs, rfl, hne, hwv⟩
+        · right
+          simp only [h2, if_false] at h
+          by_cases h3 : (neg && tbl.negable t) = true
+          · simp only [h3, if_true] at h
+            simp only [Bool.and_eq_true] at h3
+            refine ⟨h1, h2, h3.1, h3.2, ?_⟩
+            cases hb : tbl.bin t with
+            | none => simp [hb] at h
             | some la =>
               obtain ⟨l, a⟩ := la
-              simp only [hp] at h
-              have hred : Reduces l a (rctx tbl lhs) := by simpa [Stop, hb, hp] using hs
+              simp only [hb] at h
+              cases he : parseE tbl n l false ts with
+              | none => simp [he] at h
+              | some q =>
+                obtain ⟨R, ts1⟩ := q
+                simp only [he, Option.some.injEq, Prod.mk.injEq] at h
+                obtain ⟨rfl, rfl⟩ := h
+                obtain ⟨hwR, hfR, hsR, hendR⟩ := ihE _ _ _ _ _ he
+                exact ⟨l, a, R, rfl, rfl, hwR, hfR, stop_cons' tbl (end_false tbl hendR) hsR⟩
+          · simp [h3] at h
+    · intro r ba lhs ts e rest hw hf hs h
+      have ret : ∀ (hend : End tbl r ba ts), some (lhs, ts) = some (e, rest) →
+          WF tbl e ∧ Fits tbl r ba e ∧ Stop tbl (rctx tbl e) rest ∧ End tbl r ba rest := by
+        intro hend heq
+        simp only [Option.some.injEq, Prod.mk.injEq] at heq
+        obtain ⟨rfl, rfl⟩ := heq
+        exact ⟨hw, hf, hs, hend⟩
+      cases ts with
+      | nil => exact ret (Or.inl (by simp [Stop])) (by simpa [parseLoop] using h)
+      | cons t ts' =>
+        cases t with
+        | atom k => exact ret (Or.inl (by simp [Stop])) (by simpa [parseLoop] using h)
+        | rpar => exact ret (Or.inl (by simp [Stop])) (by simpa [parseLoop] using h)
+        | lpar => exact ret (Or.inl (by simp [Stop])) (by simpa [parseLoop] using h)
+        | lit w => exact ret (Or.inl (by simp [Stop])) (by simpa [parseLoop] using h)
+        | kw k => exact ret (Or.inl (by simp [Stop])) (by simpa [parseLoop] using h)
+        | sym t v =>
+          simp only [parseLoop] at h
+          by_cases h0 : (ba && decide (t = tbl.and_)) = true
+          · simp only [h0, if_true] at h
+            simp only [Bool.and_eq_true, decide_eq_true_eq] at h0
+            exact ret (Or.inr ⟨h0.1, by simp [AtAnd, h0.2]⟩) h
+          · simp only [h0, Bool.false_eq_true, if_false] at h
+            have hnotand : ba = true → t ≠ tbl.and_ := by
+              intro hb1 ht; apply h0; simp [hb1, ht]
+            -- what the loop does with a node it has just built
+            have next : ∀ (e' : Expr α) (ts2 : List (Tok α)) (l : Nat) (a : Assoc) (k : α), WF tbl e' →
+                lops tbl e' = (k, l, a) :: lops tbl lhs → act l a r = .shift → (ba = true → k ≠ tbl.and_) →
+                Stop tbl (rctx tbl e') ts2 → parseLoop tbl n r ba e' ts2 = some (e, rest) →
+                WF tbl e ∧ Fits tbl r ba e ∧ Stop tbl (rctx tbl e) rest ∧ End tbl r ba rest := by
+              intro e' ts2 l a k hwe hlo hsh hk hst hl
+              refine ihL r ba e' ts2 e rest hwe ?_ hst hl
+              intro x hx
+              rw [hlo] at hx
+              simp at hx
+              rcases hx with rfl | hx
+              · exact ⟨hsh, hk⟩
+              · exact hf x hx
+            cases hb : tbl.bin t with
+            | some la =>
+              obtain ⟨l, a⟩ := la
+              simp only [hb] at h
+              have htr := trigger_bin tbl hb
+              have hred : Reduces l a (rctx tbl lhs) := reduces_of_stop tbl hs htr
               cases ha : act l a r with
               | shift =>
                 simp only [ha] at h
-                cases hpt : postTail tbl ts' with
-                | none => simp [hpt] at h
+                cases he : parseE tbl n l false ts' with
+                | none => simp [he] at h
                 | some q =>
-                  obtain ⟨neg, w, ts2⟩ := q
-                  simp only [hpt] at h
-                  refine ihL r (.post lhs t neg w) ts2 e rest ⟨hb, l, a, hp, hw, hred⟩ ?_ ?_ h
-                  · intro la hla
-                    simp [lops, hp] at hla
-                    rcases hla with rfl | hla
-                    · exact ha
-                    · exact hf la hla
-                  · simpa [rctx] using stop_nil tbl ts2
+                  obtain ⟨rhs, ts2⟩ := q
+                  simp only [he] at h
+                  obtain ⟨hwr, hfr, hsr, hendr⟩ := ihE _ _ _ _ _ he
+                  exact next (.bin lhs t v rhs) ts2 l a t ⟨l, a, hb, hw, hwr, hred, hfr⟩ (by simp [lops, htr]) ha hnotand
+                    (by simpa [rctx, hb] using stop_cons' tbl (end_false tbl hendr) hsr) h
               | reduce =>
                 simp only [ha] at h
-                exact ret (by simp only [Stop, hb, hp]; exact stop_cons ha hred) h
+                exact ret (Or.inl (stop_sym tbl htr (by intro c hc; simp at hc; subst hc; exact ha))) h
               | error => simp [ha] at h
+            | none =>
+              simp only [hb] at h
+              cases hp : tbl.post t with
+              | some la =>
+                obtain ⟨l, a⟩ := la
+                simp only [hp] at h
+                have htr := trigger_post tbl hb hp
+                have hred : Reduces l a (rctx tbl lhs) := reduces_of_stop tbl hs htr
+                cases ha : act l a r with
+                | shift =>
+                  simp only [ha] at h
+                  cases hpt : postTail tbl ts' with
+                  | none => simp [hpt] at h
+                  | some q =>
+                    obtain ⟨neg, w, ts2⟩ := q
+                    simp only [hpt] at h
+                    exact next (.post lhs t neg w) ts2 l a t ⟨hb, postTail_some tbl hpt, l, a, hp, hw, hred⟩ (by simp [lops, htr]) ha hnotand
+                      (by simpa [rctx] using stop_nil tbl ts2) h
+                | reduce =>
+                  simp only [ha] at h
+                  exact ret (Or.inl (stop_sym tbl htr (by intro c hc; simp at hc; subst hc; exact ha))) h
+                | error => simp [ha] at h
+              | none =>
+                simp only [hp] at h
+                have hplain : Plain tbl t := ⟨hb, hp⟩
+                by_cases hn : t = tbl.neg
+                · subst hn
+                  simp only [if_true] at h
+                  have hplainN : Plain tbl tbl.neg := hplain
+                  cases hl : tbl.lvl tbl.neg with
+                  | none =>
+                    simp only [hl] at h
+                    exact ret (Or.inl (by simp [Stop, trigger, hb, hp, hl])) h
+                  | some la =>
+                    obtain ⟨l, a⟩ := la
+                    simp only [hl] at h
+                    have htr : trigger tbl tbl.neg = some (l, a) := by rw [trigger_plain tbl hplainN (Or.inl rfl), hl]
+                    have hred : Reduces l a (rctx tbl lhs) := reduces_of_stop tbl hs htr
+                    cases ha : act l a r with
+                    | shift =>
+                      simp only [ha] at h
+                      cases hsy : nextSym ts' with
+                      | none => simp [hsy] at h
+                      | some q =>
+                        obtain ⟨t2, v2, ts2⟩ := q
+                        simp only [hsy] at h
+                        cases htl : parseTail tbl n lhs true t2 v2 ts2 with
+                        | none => simp [htl] at h
+                        | some q2 =>
+                          obtain ⟨e', ts3⟩ := q2
+                          simp only [htl] at h
+                          have hk : ba = true → tbl.neg ≠ tbl.and_ := hnotand
+                          rcases ihT _ _ _ _ _ _ _ htl with ⟨h1, lo, hi, la, aa, rfl, hand, hwlo, hwhi, hflo, hrlo, hfhi, hst⟩ |
+                            ⟨h1, h2, vs, rfl, hne, hwv⟩ | ⟨h1, h2, _, hng, l2, a2, R, rfl, hb2, hwR, hfR, hst⟩
+                          · refine next _ ts3 l a tbl.neg ?_ (by simp [lops, trigTok, htr]) ha hk (by simpa [rctx, hand] using hst) h
+                            exact ⟨by simpa [trigTok] using hplainN, by simp, ⟨l, a, by simpa [trigTok] using hl, hred⟩, la, aa, hand, hw, hwlo, hwhi,
+                              hflo, hrlo, hfhi⟩
+                          · refine next _ ts3 l a tbl.neg ?_ (by simp [lops, trigTok, htr]) ha hk (by simpa [rctx] using stop_nil tbl ts3) h
+                            exact ⟨by simpa [trigTok] using hplainN, by simp, h2 ▸ h1, ⟨l, a, by simpa [trigTok] using hl, hred⟩, hw, hne, hwv⟩
+                          · refine next _ ts3 l a tbl.neg ?_ (by simp [lops, htr]) ha hk (by simpa [rctx, hb2] using hst) h
+                            exact ⟨hplainN, h1, h2, hng, ⟨l, a, hl, hred⟩, l2, a2, hb2, hw, hwR, hfR⟩
+                    | reduce =>
+                      simp only [ha] at h
+                      exact ret (Or.inl (stop_sym tbl htr (by intro c hc; simp at hc; subst hc; exact ha))) h
+                    | error => simp [ha] at h
+                · simp only [hn, if_false] at h
+                  by_cases hbi : t = tbl.btw ∨ t = tbl.inn
+                  · simp only [hbi, if_true] at h
+                    cases hl : tbl.lvl t with
+                    | none =>
+                      simp only [hl] at h
+                      exact ret (Or.inl (by simp [Stop, trigger, hb, hp, hbi, hl])) h
+                    | some la =>
+                      obtain ⟨l, a⟩ := la
+                      simp only [hl] at h
+                      have htr : trigger tbl t = some (l, a) := by rw [trigger_plain tbl hplain (Or.inr hbi), hl]
+                      have hred : Reduces l a (rctx tbl lhs) := reduces_of_stop tbl hs htr
+                      cases ha : act l a r with
+                      | shift =>
+                        simp only [ha] at h
+                        cases htl : parseTail tbl n lhs false t v ts' with
+                        | none => simp [htl] at h
+                        | some q2 =>
+                          obtain ⟨e', ts3⟩ := q2
+                          simp only [htl] at h
+                          rcases ihT _ _ _ _ _ _ _ htl with ⟨h1, lo, hi, la, aa, rfl, hand, hwlo, hwhi, hflo, hrlo, hfhi, hst⟩ |
+                            ⟨h1, h2, vs, rfl, hne, hwv⟩ | ⟨_, _, hcontra, _⟩
+                          · subst h1
+                            refine next _ ts3 l a tbl.btw ?_ (by simp [lops, trigTok, htr]) ha hnotand (by simpa [rctx, hand] using hst) h
+                            exact ⟨by simpa [trigTok] using hplain, fun _ => hn, ⟨l, a, by simpa [trigTok] using hl, hred⟩, la, aa, hand, hw, hwlo, hwhi,
+                              hflo, hrlo, hfhi⟩
+                          · subst h2
+                            refine next _ ts3 l a tbl.inn ?_ (by simp [lops, trigTok, htr]) ha hnotand (by simpa [rctx] using stop_nil tbl ts3) h
+                            exact ⟨by simpa [trigTok] using hplain, fun _ => hn, h1, ⟨l, a, by simpa [trigTok] using hl, hred⟩, hw, hne, hwv⟩
+                          · simp at hcontra
+                      | reduce =>
+                        simp only [ha] at h
+                        exact ret (Or.inl (stop_sym tbl htr (by intro c hc; simp at hc; subst hc; exact ha))) h
+                      | error => simp [ha] at h
+                  · simp only [hbi, if_false] at h
+                    exact ret (Or.inl (by
+                      have : ¬(t = tbl.neg ∨ t = tbl.btw ∨ t = tbl.inn) := by
+                        intro hh; rcases hh with hh | hh | hh
+                        · exact hn hh
+                        · exact hbi (Or.inl hh)
+                        · exact hbi (Or.inr hh)
+                      simp [Stop, trigger, hb, hp, this])) h
 
 end Csvq.OpExpr
